@@ -488,7 +488,10 @@ func (r *vRun) writeOpus(ti int) {
 		pts = verifRangeI64("odts0", -480000, 1<<33)
 	} else {
 		d := verifRangeI64("odelta", 0, 1<<20)
-		verifPrefer(d >= 1)
+		verifPrefer(d >= 24000)
+		if !verifSymbolic() && d < 24000 {
+			r.sawTiny = true
+		}
 		pts = t.lastDTS + d
 	}
 	ntp := verifNTPBase.Add(time.Duration(r.k) * time.Second)
@@ -542,7 +545,10 @@ func (r *vRun) writeAudio(ti int) {
 		dts = verifRangeI64("adts0", -441000, 1<<33)
 	} else {
 		d := verifRangeI64("adelta", 0, 1<<20)
-		verifPrefer(d >= 1)
+		verifPrefer(d >= 22050)
+		if !verifSymbolic() && d < 22050 {
+			r.sawTiny = true
+		}
 		dts = t.lastDTS + d
 	}
 	var aus [][]byte
